@@ -17,12 +17,13 @@ complete without matching (ImageFormatError), every other call delivers its chun
 """
 import sys, os, io, json, struct, random, hashlib
 import gen_C06
+import gen_C06_code
 import logging
 logging.disable(logging.CRITICAL)   # the inspectors log parse problems; not part of the observations
 
 ID = 'C06'
-GEN = [('Gen/C06_Wrapper.v', gen_C06.generate)]
-EQUIV_FILES = []
+GEN = [('Gen/C06_Wrapper.v', gen_C06.generate), ('Gen/C06_Code.v', gen_C06_code.generate)]
+EQUIV_FILES = ['Proofs/C06_Equiv.v']
 EXTRACT = 'Extract/C06_x.v'
 
 EXN_NAMES = ['ImageFormatError', 'SafetyViolation', 'SafetyCheckFailed', 'error', 'KeyError', 'AttributeError', 'IndexError',
@@ -545,8 +546,8 @@ RULE = ('sessions over the real InspectWrapper and the ten real inspectors: 17 c
         'distinct = distinct case JSON')
 TRUSTED = ['the instrumentation in tools/props/C06.py (instance-level wrappers around eat_chunk/finish, logging sources); the scripted '
            'inspectors of coq/Model/C06.v replay recorded outcomes, so the concrete inspectors are NOT part of this property (see C01/C03)',
-           'tools/gen/gen_C06.py: AST shape of _process_chunk -> gen_shape; the other wrapper methods are compared textually with the '
-           'transcription the model was written from']
+           'tools/gen/gen_C06.py (AST shape of _process_chunk -> gen_shape, textual comparison) and tools/gen/gen_C06_code.py: statement-level '
+           'translation of every InspectWrapper method and detect_file_format, proved equal to the model (Proofs/C06_Equiv.v)']
 ASSUMPTIONS = ['inspector faults are Exception subclasses (a BaseException such as KeyboardInterrupt is not caught by the wrapper, by design)',
                'complete / format_match are total, effect-free queries (they are on the pinned tree after fix D2); a run in which one raises is '
                'not replayed by the model (counted as not modelled)',
